@@ -3,7 +3,7 @@
 //! impl:   real `Memvid` handles on a real .mv2 in a tempdir, each held by a CHILD PROCESS (this
 //!         binary re-executed with argv[1] = "actor", driven over stdin/stdout one line per command);
 //!         actors A (model handle 0) and B (1) are writers, P (2) probes, R (3) is a read-only opener.
-//! model:  drv_c17 (MvModel/Lock.lean, repaired protocol) — flock table, directory, handles.
+//! model:  drv_c17 (MvModel/Lock.lean, `Proto.current` = the code as it is) — flock table, directory, handles.
 //! After every op of a history the harness
 //!   (a) stats the path (inode),
 //!   (b) asks the actor which inodes its data descriptor and its LOCK descriptor are on
@@ -20,6 +20,12 @@
 //!     in parallel threads: before a commit, after a commit, with a commit DURING the opener's
 //!     retry loop) and a refused create leaves the file's length alone,
 //!   - two actors never hold writable handles for one path at the same time (two-writer schedules).
+//! known findings (`--known`): an oracle failure is reported as the recorded finding
+//! `lock-left-on-unlinked-inode-after-commit` only when the model of the current protocol predicts
+//! the very same observation AND the live writer's lock is stale (it has committed since it was
+//! opened); a second writer admitted BEFORE the first commit, a missing lock, or any observation
+//! the model does not predict stays a violation.  `refused-create-truncates-live-file` is not
+//! modelled and is classified by its oracle signature alone.
 use mvh::*;
 use std::io::{BufRead, BufReader, Write};
 use std::os::unix::fs::MetadataExt;
@@ -270,8 +276,26 @@ struct Outcome {
     disagreements: Vec<(String, String, String)>,
     /// (signature, what)
     violations: Vec<(String, String)>,
+    /// oracle failures that the model of the current protocol predicts exactly and whose class is
+    /// a recorded finding: (finding signature, what)
+    known: Vec<(String, String)>,
+    /// the history went past the point where model and implementation can be stepped together
+    /// (two writable handles on one file, or a foreign doctor rewrote it)
+    stop: bool,
     branches: Vec<&'static str>,
     nontrivial: bool,
+}
+
+/// recorded finding: after the first copy-and-rename commit the writer's flock is on the unlinked
+/// old inode, so the path is unprotected (the model of the current protocol predicts every instance)
+const FINDING_LOCK: &str = "lock-left-on-unlinked-inode-after-commit";
+/// recorded finding: Memvid::create truncates the file before it holds the lock (not modelled:
+/// classified by the oracle's signature alone)
+const FINDING_TRUNC: &str = "refused-create-truncates-live-file";
+
+static KNOWN: std::sync::OnceLock<std::collections::BTreeSet<String>> = std::sync::OnceLock::new();
+fn is_known(sig: &str) -> bool {
+    KNOWN.get().map(|k| k.contains(sig)).unwrap_or(false)
 }
 
 struct World {
@@ -306,7 +330,7 @@ impl Model<'_> {
 
 /// observe + compare + oracle after one op.  `who` = actors that may hold handles: (model id, actor).
 fn observe(w: &mut World, m: &mut Model, out: &mut Outcome, prev_real: &mut Option<u64>, prev_model: &mut String,
-           use_b: bool, label: &str) {
+           use_b: bool, dirty: bool, label: &str) {
     let ps = w.pstr();
     let pino = stat_ino(&w.path);
     let changed_real = pino != *prev_real;
@@ -319,7 +343,11 @@ fn observe(w: &mut World, m: &mut Model, out: &mut Outcome, prev_real: &mut Opti
     let b_writer = ob != "none" && field(&ob, "ro") == Some("0");
     // real-code non-blocking writable open by P (dropped at once when it succeeds)
     // (only while a writer is alive: a granted try_open runs a full open, which is slow)
-    let with_tryopen = a_writer || b_writer;
+    // (and, when a writer's lock is stale, only while no writer has uncommitted WAL records: a
+    //  foreign open that is admitted would replay them and rewrite the file under the writer)
+    let stale = [(&oa, a_writer), (&ob, b_writer)].iter()
+        .any(|(o, w)| *w && field(o, "pino") != field(o, "lino"));
+    let with_tryopen = (a_writer || b_writer) && !(stale && dirty);
     let mut topen = String::from("-");
     if with_tryopen && pino.is_some() {
         let r = w.p.ask(&format!("tryopen {ps}"));
@@ -332,33 +360,34 @@ fn observe(w: &mut World, m: &mut Model, out: &mut Outcome, prev_real: &mut Opti
         canon_real_obs(&oa), canon_real_obs(&ob), probe_word, topen, changed_real as u8);
     out.trace.push(format!("  impl  after {label}: {real}   (A: {oa}; B: {ob}; path ino {pino:?}; probe {probe})"));
     // ---- oracle, from the implementation's own observations only
+    let mut fails: Vec<(String, String)> = Vec::new();
     for (name, o, is_w) in [("A", &oa, a_writer), ("B", &ob, b_writer)] {
         if !is_w {
             continue;
         }
         let (p, f, l) = (field(o, "pino"), field(o, "fino"), field(o, "lino"));
         if p != l || field(o, "held") != Some("ex") {
-            out.violations.push(("lock-not-on-path-inode".into(),
+            fails.push(("lock-not-on-path-inode".into(),
                 format!("after {label}: writable handle {name} alive but its exclusive flock is not on the inode the path names ({o})")));
         } else if p != f {
-            out.violations.push(("data-descriptor-not-on-path-inode".into(),
+            fails.push(("data-descriptor-not-on-path-inode".into(),
                 format!("after {label}: writable handle {name} alive but its data descriptor is on another inode than the path ({o})")));
         }
         if probe_word == "granted" {
-            out.violations.push(("second-writer-admitted-while-handle-alive".into(),
+            fails.push(("second-writer-admitted-while-handle-alive".into(),
                 format!("after {label}: writable handle {name} alive, yet flock(LOCK_EX|LOCK_NB) on a fresh descriptor of the path was GRANTED to another process ({probe}; {o})")));
         } else {
             out.branches.push("probe-refused-while-writer-alive");
         }
         if topen == "ok" {
-            out.violations.push(("second-writer-admitted-while-handle-alive".into(),
+            fails.push(("second-writer-admitted-while-handle-alive".into(),
                 format!("after {label}: writable handle {name} alive, yet Memvid::try_open of the path SUCCEEDED in another process ({o})")));
         } else if topen == "fail" {
             out.branches.push("tryopen-refused-while-writer-alive");
         }
     }
     if a_writer && b_writer {
-        out.violations.push(("two-writable-handles".into(),
+        fails.push(("two-writable-handles".into(),
             format!("after {label}: two processes hold writable handles for the path (A: {oa}; B: {ob})")));
     }
     if !a_writer && !b_writer && probe_word == "granted" {
@@ -383,11 +412,25 @@ fn observe(w: &mut World, m: &mut Model, out: &mut Outcome, prev_real: &mut Opti
         let model = format!("A[{}] B[{}] probe={} tryopen={} changed={}",
             canon_model_obs(&ma), canon_model_obs(&mb), mprobe, mtopen, changed_model as u8);
         out.trace.push(format!("  model after {label}: {model}   (0: {ma}; 1: {mb}; path ino {mpino})"));
+        // an oracle failure is the recorded finding only if the model of the current protocol
+        // predicts this very observation and a live writer's lock is stale (it has committed)
+        let predicted = model == real && stale && (ma.contains("lockOnPath=0") || mb.contains("lockOnPath=0"));
         if model != real {
             out.disagreements.push((format!("state after {label}"), model, real));
         }
+        if !fails.is_empty() && predicted && is_known(FINDING_LOCK) {
+            for (sig, what) in fails.drain(..) {
+                out.known.push((FINDING_LOCK.into(), format!("[{sig}] {what}")));
+            }
+            out.branches.push("known-stale-lock-after-commit");
+        }
+    }
+    out.violations.extend(fails);
+    if a_writer && b_writer {
+        out.stop = true;
     }
 }
+
 
 fn model_op(m: &mut Model, out: &mut Outcome, line: &str, real: &str, label: &str) {
     if let Some(ans) = m.ask(line) {
@@ -404,8 +447,10 @@ fn run_hist(ops: &[String], m: &mut Model, w: &mut World) -> Outcome {
     let mut out = Outcome::default();
     let ps = w.pstr();
     m.ask("reset");
+    m.ask("proto current");
     let (mut prev_real, mut prev_model) = (None, String::from("-"));
     let mut renames_alive = 0;
+    let mut dirty = false;
     for (i, op) in ops.iter().enumerate() {
         let label = format!("op {i} {op}");
         let before = stat_ino(&w.path);
@@ -414,16 +459,23 @@ fn run_hist(ops: &[String], m: &mut Model, w: &mut World) -> Outcome {
                 let r = w.a.ask(&format!("{op} {ps}"));
                 out.trace.push(format!("impl  A {op} -> {r}"));
                 model_op(m, &mut out, &format!("{op} 0 {MP}"), ok_of(&r), &label);
+                dirty = false;
             }
             "put" => {
                 let r = w.a.ask(&format!("put {i}"));
                 out.trace.push(format!("impl  A put -> {r}"));
+                if r == "ok" {
+                    dirty = true;
+                }
                 if m.drv.is_some() && r == "ok" {
                     m.ask("put 0");
                 }
             }
             "commit" | "vacuum" | "drop" => {
                 let r = w.a.ask(op);
+                if r == "ok" {
+                    dirty = false;
+                }
                 out.trace.push(format!("impl  A {op} -> {r}"));
                 if m.drv.is_some() {
                     let a = m.ask(&format!("{op} 0")).unwrap();
@@ -444,13 +496,23 @@ fn run_hist(ops: &[String], m: &mut Model, w: &mut World) -> Outcome {
                 m.ask("kill 3");
             }
             "doctor" => {
-                let alive = w.a.ask("obs") != "none";
+                let oa = w.a.ask("obs");
+                let alive = oa != "none";
+                let a_stale = alive && field(&oa, "pino") != field(&oa, "lino");
+                if a_stale && dirty {
+                    // an admitted doctor would replay the live writer's WAL records: skip (the flock
+                    // probe after this op still reports the unprotected path)
+                    out.trace.push("impl  P doctor skipped (stale lock and uncommitted records)".into());
+                    observe(w, m, &mut out, &mut prev_real, &mut prev_model, false, dirty, &label);
+                    continue;
+                }
                 let r = w.p.ask(&format!("doctor {ps}"));
                 out.trace.push(format!("impl  P doctor -> {r}"));
                 let got = r.starts_with("ran");
+                let mut doctor_fail: Option<String> = None;
                 if alive && got {
-                    out.violations.push(("second-writer-admitted-while-handle-alive".into(),
-                        format!("after {label}: Memvid::doctor obtained its writable handle (report: {r}) while another process holds a writable handle")));
+                    doctor_fail = Some(format!("after {label}: Memvid::doctor obtained its writable handle (report: {r}) while another process holds a writable handle ({oa})"));
+                    out.stop = true;
                 }
                 if alive && r == "lockcontention" {
                     out.branches.push("doctor-lock-contention");
@@ -468,6 +530,14 @@ fn run_hist(ops: &[String], m: &mut Model, w: &mut World) -> Outcome {
                             out.disagreements.push((format!("result of {label}"), a.clone(), r.clone()));
                         }
                     }
+                    if let Some(what) = doctor_fail.take() {
+                        if a == "ok" && a_stale && is_known(FINDING_LOCK) {
+                            out.known.push((FINDING_LOCK.into(), format!("[second-writer-admitted-while-handle-alive] {what}")));
+                            out.branches.push("known-doctor-admitted-after-commit");
+                        } else {
+                            out.violations.push(("second-writer-admitted-while-handle-alive".into(), what));
+                        }
+                    }
                     if a == "ok" {
                         if got && stat_ino(&w.path) != before {
                             m.ask("m put 2");
@@ -475,6 +545,9 @@ fn run_hist(ops: &[String], m: &mut Model, w: &mut World) -> Outcome {
                         }
                         m.ask("kill 2");
                     }
+                }
+                if let Some(what) = doctor_fail {
+                    out.violations.push(("second-writer-admitted-while-handle-alive".into(), what));
                 }
             }
             _ => {}
@@ -485,8 +558,11 @@ fn run_hist(ops: &[String], m: &mut Model, w: &mut World) -> Outcome {
             renames_alive += 1;
             out.branches.push("commit-renamed-under-live-handle");
         }
-        observe(w, m, &mut out, &mut prev_real, &mut prev_model, false, &label);
-        if !out.violations.is_empty() {
+        if out.stop {
+            break;
+        }
+        observe(w, m, &mut out, &mut prev_real, &mut prev_model, false, dirty, &label);
+        if !out.violations.is_empty() || out.stop {
             break;
         }
     }
@@ -503,27 +579,41 @@ fn run_two(ops: &[String], m: &mut Model, w: &mut World) -> Outcome {
     let mut out = Outcome::default();
     let ps = w.pstr();
     m.ask("reset");
+    m.ask("proto current");
     let (mut prev_real, mut prev_model) = (None, String::from("-"));
     let mut contested = 0;
+    let mut dirty = [false, false];
     for (i, sop) in ops.iter().enumerate() {
         let (who, op) = sop.split_once(':').unwrap_or(("0", sop.as_str()));
         let label = format!("op {i} {sop}");
-        let id = if who == "1" { 1 } else { 0 };
-        let other_alive = if id == 0 { w.b.ask("obs") != "none" } else { w.a.ask("obs") != "none" };
+        let id: usize = if who == "1" { 1 } else { 0 };
+        let other_obs = if id == 0 { w.b.ask("obs") } else { w.a.ask("obs") };
+        let other_alive = other_obs != "none";
+        let other_stale = other_alive && field(&other_obs, "pino") != field(&other_obs, "lino");
+        if matches!(op, "create" | "tryopen") && other_stale && dirty[1 - id] {
+            // an admitted second open would replay the first writer's uncommitted WAL records
+            out.trace.push(format!("impl  {who} {op} skipped (the other writer's lock is stale and it has uncommitted records)"));
+            continue;
+        }
         let act = if id == 0 { &mut w.a } else { &mut w.b };
         match op {
             "create" | "tryopen" => {
                 let r = act.ask(&format!("{op} {ps}"));
                 out.trace.push(format!("impl  {who} {op} -> {r}"));
                 model_op(m, &mut out, &format!("{op} {id} {MP}"), ok_of(&r), &label);
-                if other_alive && r != "ok" {
+                if other_alive {
                     contested += 1;
+                }
+                if other_alive && r != "ok" {
                     out.branches.push("second-writer-refused");
                 }
             }
             "put" => {
                 let r = act.ask(&format!("put {i}"));
                 out.trace.push(format!("impl  {who} put -> {r}"));
+                if r == "ok" {
+                    dirty[id] = true;
+                }
                 if m.drv.is_some() && r == "ok" {
                     m.ask(&format!("put {id}"));
                 }
@@ -531,12 +621,15 @@ fn run_two(ops: &[String], m: &mut Model, w: &mut World) -> Outcome {
             "commit" | "vacuum" | "drop" => {
                 let r = act.ask(op);
                 out.trace.push(format!("impl  {who} {op} -> {r}"));
+                if r == "ok" {
+                    dirty[id] = false;
+                }
                 m.ask(&format!("{op} {id}"));
             }
             _ => {}
         }
-        observe(w, m, &mut out, &mut prev_real, &mut prev_model, true, &label);
-        if !out.violations.is_empty() {
+        observe(w, m, &mut out, &mut prev_real, &mut prev_model, true, dirty[0] || dirty[1], &label);
+        if !out.violations.is_empty() || out.stop {
             break;
         }
     }
@@ -600,10 +693,10 @@ fn slow_check(sr: SlowReal, m: &mut Model) -> Outcome {
     out.trace = sr.trace.clone();
     out.nontrivial = true;
     // oracle: A was alive and writable all along
+    let mut admitted: Option<String> = None;
     if sr.b_result == "ok" {
-        out.violations.push(("second-writer-admitted-while-handle-alive".into(),
-            format!("scenario {}: a second Memvid::{} of the path SUCCEEDED (after {:.1} s) while the first writable handle was alive ({})",
-                sr.name, if sr.name == "create_refused" { "create" } else { "open" }, sr.secs, sr.a_after)));
+        admitted = Some(format!("scenario {}: a second Memvid::{} of the path SUCCEEDED (after {:.1} s) while the first writable handle was alive ({})",
+                sr.name, if sr.name == "create_refused" { "create" } else { "open" }, sr.secs, sr.a_after));
     } else {
         out.branches.push(match sr.name.as_str() {
             "open_before_commit" => "slow-open-refused-before-commit",
@@ -613,15 +706,21 @@ fn slow_check(sr: SlowReal, m: &mut Model) -> Outcome {
         });
     }
     if sr.name == "create_refused" && sr.size_after != sr.size_before {
-        out.violations.push(("refused-create-truncated-live-file".into(),
-            format!("scenario create_refused: a Memvid::create that was refused ({}) changed the length of the file a live writer holds: {} -> {} bytes",
-                sr.b_result, sr.size_before, sr.size_after)));
+        let what = format!("scenario create_refused: a Memvid::create that was refused ({}) changed the length of the file a live writer holds: {} -> {} bytes",
+                sr.b_result, sr.size_before, sr.size_after);
+        if sr.b_result == "fail" && sr.size_after == 0 && is_known(FINDING_TRUNC) {
+            out.known.push((FINDING_TRUNC.into(), what));
+            out.branches.push("known-refused-create-truncated");
+        } else {
+            out.violations.push((FINDING_TRUNC.into(), what));
+        }
     } else if sr.name == "create_refused" {
         out.branches.push("refused-create-left-file-alone");
     }
     // model
     if m.drv.is_some() {
         m.ask("reset");
+        m.ask("proto current");
         m.ask(&format!("create 0 {MP}"));
         m.ask("put 0");
         let ans = match sr.name.as_str() {
@@ -650,6 +749,17 @@ fn slow_check(sr: SlowReal, m: &mut Model) -> Outcome {
             }
         };
         out.trace.push(format!("  model second writer -> {ans}"));
+        // the recorded finding: admitted only after the first handle's commit, exactly as the model
+        // of the current protocol predicts
+        if let Some(what) = admitted.take() {
+            let a_stale = field(&sr.a_after, "pino") != field(&sr.a_after, "lino");
+            if ans == "ok" && a_stale && sr.name == "open_after_commit" && is_known(FINDING_LOCK) {
+                out.known.push((FINDING_LOCK.into(), format!("[second-writer-admitted-while-handle-alive] {what}")));
+                out.branches.push("known-slow-open-admitted-after-commit");
+            } else {
+                out.violations.push(("second-writer-admitted-while-handle-alive".into(), what));
+            }
+        }
         if ans != sr.b_result {
             out.disagreements.push((format!("scenario {}: result of the second writable open", sr.name), ans, sr.b_result.clone()));
         }
@@ -659,6 +769,9 @@ fn slow_check(sr: SlowReal, m: &mut Model) -> Outcome {
         if ma != ra {
             out.disagreements.push((format!("scenario {}: first handle's lock state", sr.name), ma, ra));
         }
+    }
+    if let Some(what) = admitted {
+        out.violations.push(("second-writer-admitted-while-handle-alive".into(), what));
     }
     out
 }
@@ -758,6 +871,9 @@ fn account(sum: &mut Summary, case: &Value, out: &Outcome) {
     for (sig, what) in &out.violations {
         sum.oracle_violation(sig, what, case.clone());
     }
+    for (sig, what) in &out.known {
+        sum.known_finding(sig, what, case.clone());
+    }
     if out.violations.is_empty() {
         for (what, model, imp) in &out.disagreements {
             sum.disagreement(what, case.clone(), model, imp);
@@ -773,6 +889,7 @@ fn main() {
         return;
     }
     let args = parse_args();
+    let _ = KNOWN.set(args.extra.get("known").map(|k| k.split(',').map(|x| x.trim().to_string()).collect()).unwrap_or_default());
     let mut drv = if args.driver.as_os_str() == "none" { None } else {
         match Driver::spawn(&args.driver) {
             Ok(d) => Some(d),
@@ -784,8 +901,7 @@ fn main() {
     sum.expect_branches(&[
         "commit-renamed-under-live-handle", "probe-refused-while-writer-alive", "tryopen-refused-while-writer-alive",
         "probe-granted-when-free", "doctor-lock-contention", "second-writer-refused", "reader-open",
-        "slow-open-refused-before-commit", "slow-open-refused-after-commit", "slow-waiting-opener-refused",
-        "slow-create-refused", "refused-create-left-file-alone",
+        "slow-open-refused-before-commit", "slow-waiting-opener-refused", "slow-create-refused",
     ]);
 
     if args.mode == "replay" {
@@ -800,6 +916,9 @@ fn main() {
         }
         for (sig, what) in &out.violations {
             println!("ORACLE VIOLATION [{sig}] {what}");
+        }
+        for (sig, what) in &out.known {
+            println!("KNOWN FINDING [{sig}] (predicted by the model of the current protocol) {what}");
         }
         for (what, model, imp) in &out.disagreements {
             println!("DISAGREEMENT {what}\n   model: {model}\n   impl:  {imp}");
